@@ -3,8 +3,14 @@ package checks
 import (
 	"fmt"
 	"math/rand"
+	"os"
+	"os/exec"
+	"path/filepath"
 	"strings"
+	"syscall"
 	"time"
+
+	"github.com/element-of-surprise/coercion/workflow/context"
 
 	"verifharness/internal/eng"
 	"verifharness/internal/ev"
@@ -40,6 +46,22 @@ func baseCase(r *rand.Rand, plans []spec.Plan) *eng.Case {
 }
 
 func orderProfile(r *rand.Rand, idx int, tier string) *eng.Case {
+	if idx%6 == 0 {
+		// work still in flight when the block is found to have failed: deferred checks must still come last
+		p := slowSurvivor(r, "p0", idx%12 == 0)
+		d := &spec.Checks{Actions: []spec.Action{{Steps: []plug.Step{{Out: plug.OK, SleepUS: 500}}}}}
+		if p.Deferred == nil && p.Blocks[0].Deferred == nil {
+			if r.Intn(2) == 0 {
+				p.Deferred = d
+			} else {
+				p.Blocks[0].Deferred = d
+			}
+		}
+		// a multi-action survivor shows whether the sequence goes on after the scope ended
+		p.Blocks[0].Seqs[1].Actions = append(p.Blocks[0].Seqs[1].Actions, spec.Action{Steps: []plug.Step{{Out: plug.OK, SleepUS: 1000}}})
+		p.AssignTags()
+		return baseCase(r, []spec.Plan{p})
+	}
 	g := gen.Base()
 	return baseCase(r, plansOf(r, &g, nPlans(r)))
 }
@@ -114,7 +136,64 @@ func slowSurvivor(r *rand.Rand, name string, contInstead bool) spec.Plan {
 	return p
 }
 
+// busyCont: few long sequences (all launched at once, so nobody polls the continuous-check results) next to
+// fast continuous checks at block and/or plan level: several runs pass unobserved and one is in flight when the
+// scope ends. failAtRun > 0 scripts the block-level (or plan-level) check to fail at that run.
+func busyCont(r *rand.Rand, name string, failAtRun int) spec.Plan {
+	mk := func(failAt int) *spec.Checks {
+		a := spec.Action{}
+		for k := 1; failAt > 0 && k < failAt; k++ {
+			a.Steps = append(a.Steps, plug.Step{Out: plug.OK, SleepUS: 1500 + r.Intn(4000)})
+		}
+		if failAt > 0 {
+			a.Steps = append(a.Steps, plug.Step{Out: plug.Permanent, SleepUS: 1500 + r.Intn(4000)})
+		} else {
+			a.Steps = []plug.Step{{Out: plug.OK, SleepUS: 1500 + r.Intn(4000)}}
+		}
+		return &spec.Checks{DelayUS: 300 + r.Intn(700), Actions: []spec.Action{a}}
+	}
+	nseq := 1 + r.Intn(2)
+	b := spec.Block{Conc: nseq + r.Intn(2), Tol: 0}
+	for s := 0; s < nseq; s++ {
+		var sq spec.Seq
+		for a := 0; a < 1+r.Intn(2); a++ {
+			sq.Actions = append(sq.Actions, spec.Action{Steps: []plug.Step{{Out: plug.OK, SleepUS: 8000 + r.Intn(14000)}}})
+		}
+		b.Seqs = append(b.Seqs, sq)
+	}
+	p := spec.Plan{Name: name, Blocks: []spec.Block{b}}
+	switch r.Intn(3) {
+	case 0:
+		p.Blocks[0].Cont = mk(failAtRun)
+	case 1:
+		p.Cont = mk(failAtRun)
+	default:
+		p.Blocks[0].Cont = mk(failAtRun)
+		p.Cont = mk(0)
+	}
+	if r.Intn(2) == 0 {
+		p.Blocks[0].Deferred = &spec.Checks{Actions: []spec.Action{{Steps: []plug.Step{{Out: plug.OK, SleepUS: 300}}}}}
+	}
+	if r.Intn(2) == 0 {
+		p.Post = &spec.Checks{Actions: []spec.Action{{Steps: []plug.Step{{Out: plug.OK, SleepUS: 300}}}}}
+	}
+	if r.Intn(3) == 0 {
+		p.Blocks = append(p.Blocks, spec.Block{Conc: 1, Seqs: []spec.Seq{{Actions: []spec.Action{{Steps: []plug.Step{{Out: plug.OK, SleepUS: 2000}}}}}}})
+	}
+	p.AssignTags()
+	return p
+}
+
 func finalProfile(r *rand.Rand, idx int, tier string) *eng.Case {
+	if idx%5 == 1 {
+		fail := 0
+		if idx%10 == 1 {
+			fail = 2 + r.Intn(5)
+		}
+		c := baseCase(r, []spec.Plan{busyCont(r, "p0", fail)})
+		c.GraceMS = 40
+		return c
+	}
 	if idx%5 == 0 {
 		c := baseCase(r, []spec.Plan{slowSurvivor(r, "p0", idx%10 == 0)})
 		c.GraceMS = 40
@@ -266,6 +345,10 @@ func contProfile(r *rand.Rand, idx int, tier string) *eng.Case {
 	g.MaxSeqs = 5
 	g.PBypass, g.PBBypass = 0.08, 0.08
 	c := baseCase(r, plansOf(r, &g, 1))
+	if idx%8 == 1 {
+		// several unobserved passing runs, then a failing run that is typically in flight when the scope ends
+		return baseCase(r, []spec.Plan{busyCont(r, "p0", 2+r.Intn(5))})
+	}
 	if idx%8 == 0 {
 		// bounded-progress template: a sequence action returns only after the scope's continuous check ran k more times
 		p := &c.Plans[0]
@@ -464,7 +547,7 @@ func raceHas(subs ...string) func(ev.RaceBlock) bool {
 func init() {
 	register(&Prop{
 		ID: "C01", Level: "exploration", Batch: 20, PerCaseTimeout: 70 * time.Second,
-		Rule:  "case i = PRNG(seed,i) plan set from the 'order' profile (1-3 plans of 1-3 blocks x 1-4 sequences x 1-3 actions, random check groups, concurrency, tolerance, latencies with a slow tail, vault delays); a case is non-trivial/distinct by the hash of (final statuses of all non-action objects, reason, concurrency/tolerance values)",
+		Rule:  "every 6th case the slow-survivor template (Concurrency>=2, >=C+2 sequences, the first fails at once or a continuous check fails, the others are slow, deferred checks present); otherwise case i = PRNG(seed,i) plan set from the 'order' profile (1-3 plans of 1-3 blocks x 1-4 sequences x 1-3 actions, random check groups, concurrency, tolerance, latencies with a slow tail, vault delays); a case is non-trivial/distinct by the hash of (final statuses of all non-action objects, reason, concurrency/tolerance values)",
 		Cases: nCases(320, 6000),
 		Run: engineRun("C01", orderProfile, func(c *eng.Case, run *eng.Run, pr *eng.PlanRun, t *oracle.Trace, res *CaseResult) {
 			res.Viols = append(res.Viols, oracle.C01(pr.Spec, t)...)
@@ -530,7 +613,7 @@ func init() {
 	})
 	register(&Prop{
 		ID: "C04", Level: "exploration", Batch: 16, PerCaseTimeout: 70 * time.Second,
-		Rule:  "case i = PRNG(seed,i) from the 'final' profile (continuous checks slower than sequences, failing stages of every kind, every 5th case the slow-survivor template with Concurrency>=2 and >=C+2 sequences); observed: plan returned by Wait, plugin/vault events after Wait, plan re-read after quiescence + grace; distinct by final-status hash",
+		Rule:  "case i = PRNG(seed,i) from the 'final' profile (continuous checks slower than sequences, failing stages of every kind, every 5th case the slow-survivor template with Concurrency>=2 and >=C+2 sequences, every 5th case the busy-cont template: few long sequences all launched at once next to fast continuous checks, so that several passing runs go unobserved and one run is in flight when the scope ends); observed: plan returned by Wait, plugin/vault events after Wait, plan re-read after quiescence + grace; distinct by final-status hash",
 		Cases: nCases(300, 6000),
 		Run: engineRun("C04", finalProfile, func(c *eng.Case, run *eng.Run, pr *eng.PlanRun, t *oracle.Trace, res *CaseResult) {
 			res.Viols = append(res.Viols, oracle.C04(pr.Spec, t, pr.P0, pr.P1, run.GraceSeq)...)
@@ -589,7 +672,7 @@ func init() {
 	})
 	register(&Prop{
 		ID: "C07", Level: "exploration", Batch: 16, PerCaseTimeout: 70 * time.Second,
-		Rule:  "case i = PRNG(seed,i) from the 'cont' profile (continuous checks in 60% of scopes, failing at run k in 1..6, deferred checks in 60% of scopes; every 8th case a bounded-progress rendezvous: a sequence action returns only after the scope's continuous check ran k more times); non-trivial = a continuous check failed or a deferred group existed; distinct by final-status hash",
+		Rule:  "case i = PRNG(seed,i) from the 'cont' profile (continuous checks in 60% of scopes, failing at run k in 1..6, deferred checks in 60% of scopes; every 8th case the busy-cont template with a failing run k in 2..6 that is typically in flight when the scope ends; every 8th case a bounded-progress rendezvous: a sequence action returns only after the scope's continuous check ran k more times); non-trivial = a continuous check failed or a deferred group existed; distinct by final-status hash",
 		Cases: nCases(400, 8000),
 		Run: engineRun("C07", contProfile, func(c *eng.Case, run *eng.Run, pr *eng.PlanRun, t *oracle.Trace, res *CaseResult) {
 			r := oracle.C07(pr.Spec, t, pr.P0)
@@ -617,9 +700,9 @@ func init() {
 	})
 	register(&Prop{
 		ID: "C08", Level: "exploration", Batch: 16, PerCaseTimeout: 70 * time.Second,
-		Rule:  "case i = PRNG(seed,i) from the 'order' profile with retries and vault delays of up to 3 ms before/after every storage call; every second case (single plan) has a goroutine polling Plan(id) every 3 ms; distinct by final-status hash",
+		Rule:  "case i = PRNG(seed,i) from the 'order' profile with retries and vault delays of up to 3 ms before/after every storage call; every second case (single plan) has a goroutine polling Plan(id) every 3 ms; every tenth case is a fault case: a strictly sequential plan runs in a grandchild process on a vault whose PRNG-chosen k-th write fails, every event journalled synchronously: no plugin invocation may begin after the failed write and Wait must not return; distinct by final-status hash",
 		Cases: nCases(300, 6000),
-		Run: engineRun("C08", persistProfile, func(c *eng.Case, run *eng.Run, pr *eng.PlanRun, t *oracle.Trace, res *CaseResult) {
+		Run: c08Dispatch(engineRun("C08", persistProfile, func(c *eng.Case, run *eng.Run, pr *eng.PlanRun, t *oracle.Trace, res *CaseResult) {
 			res.Viols = append(res.Viols, oracle.C08(pr.Spec, t, pr.P0)...)
 			res.Counters["writes"] += len(t.Writes)
 			if pr == &run.Plans[0] {
@@ -628,9 +711,201 @@ func init() {
 					res.Viols = append(res.Viols, ev.V("C08", "regress", strings.Split(g.Addr, ".")[0][:1], "a polling reader saw %s of plan %s go from %d to %d", g.Addr, g.Plan, g.From, g.To))
 				}
 			}
-		}, false),
+		}, false)),
 		RaceAttr:      func(ev.RaceBlock) bool { return false },
 		MinNontrivial: 30,
 		Assumptions:   []string{"a write event is logged after the real vault call returned and before control returns to the engine; a begin event is logged at the first instruction of Execute"},
 	})
+}
+
+// ---------- C08 fault mode: a failing storage write must stop the engine before it acts ----------
+
+// seqPlan: a strictly sequential plan (Concurrency 1, one action per check group, no continuous checks), so that
+// after a failed write no plugin invocation at all may begin.
+func seqPlan(r *rand.Rand) spec.Plan {
+	one := func(fail bool) *spec.Checks {
+		return &spec.Checks{DelayUS: 500, Actions: []spec.Action{{Steps: step(!fail, r.Intn(800))}}}
+	}
+	p := spec.Plan{Name: "p0"}
+	if r.Intn(2) == 0 {
+		p.Pre = one(false)
+	}
+	if r.Intn(2) == 0 {
+		p.Post = one(r.Intn(5) == 0)
+	}
+	if r.Intn(2) == 0 {
+		p.Deferred = one(false)
+	}
+	for b := 0; b < 1+r.Intn(2); b++ {
+		blk := spec.Block{Conc: 1, Tol: r.Intn(2)}
+		if r.Intn(3) == 0 {
+			blk.Pre = one(false)
+		}
+		if r.Intn(3) == 0 {
+			blk.Post = one(false)
+		}
+		if r.Intn(3) == 0 {
+			blk.Deferred = one(false)
+		}
+		for s := 0; s < 1+r.Intn(3); s++ {
+			var sq spec.Seq
+			for a := 0; a < 1+r.Intn(3); a++ {
+				ac := spec.Action{Steps: step(r.Intn(6) != 0, r.Intn(800))}
+				if r.Intn(4) == 0 {
+					ac.Retries = 1 + r.Intn(2)
+					ac.Steps = append([]plug.Step{{Out: plug.Transient, SleepUS: r.Intn(500)}}, ac.Steps...)
+				}
+				sq.Actions = append(sq.Actions, ac)
+			}
+			blk.Seqs = append(blk.Seqs, sq)
+		}
+		p.Blocks = append(p.Blocks, blk)
+	}
+	p.AssignTags()
+	return p
+}
+
+// c08FaultChild runs one sequential plan on a vault whose k-th write fails; every event is journalled
+// synchronously, because the expected end of this process is log.Fatalf.
+func c08FaultChild() int {
+	ctx := context.Background()
+	seed := int64(envInt("VERIF_C08_SEED", 1))
+	failAt := envInt("VERIF_C08_FAILAT", 1)
+	jf, err := os.OpenFile(os.Getenv("VERIF_C08_JOURNAL"), os.O_CREATE|os.O_WRONLY|os.O_APPEND, 0o644)
+	if err != nil {
+		return 3
+	}
+	r := rand.New(rand.NewSource(seed))
+	ps := seqPlan(r)
+	env, err := eng.NewEnv(ctx, seed, 0)
+	if err != nil {
+		fmt.Fprintln(jf, "ERR newenv", err)
+		return 3
+	}
+	env.Log.Hook = func(e *plug.Event) {
+		fmt.Fprintf(jf, "EV %d %s %s %s %q\n", e.Seq, e.Kind, e.Obj, e.Tag, e.VErr)
+	}
+	id, err := env.WS.Submit(ctx, ps.Build())
+	if err != nil {
+		fmt.Fprintln(jf, "ERR submit", err)
+		return 3
+	}
+	// the create is write number 1; failures are injected into the execution writes only
+	env.Rec.FailAt = env.Rec.Writes() + failAt
+	if err := env.WS.Start(ctx, id); err != nil {
+		fmt.Fprintln(jf, "ERR start", err)
+		return 3
+	}
+	p, _, ok := eng.WaitPlan(env.WS, id, 20*time.Second)
+	if !ok {
+		fmt.Fprintln(jf, "WAITHANG")
+		return 0
+	}
+	st := -1
+	if p != nil && p.State != nil {
+		st = int(p.State.Status)
+	}
+	fmt.Fprintf(jf, "WAITRET %d\n", st)
+	return 0
+}
+
+func c08Fault(c *Ctx, idx int) CaseResult {
+	r := gen.Rand(c.Seed, "C08fault", idx)
+	res := CaseResult{Counters: map[string]int{}}
+	seed := r.Int63()
+	// number of execution writes of this plan: run it once without faults (in-process) to size k
+	ps := seqPlan(rand.New(rand.NewSource(seed)))
+	dry := eng.Execute(&eng.Case{Plans: []spec.Plan{ps}, VaultSeed: seed, WaitTimeoutMS: 20000, GraceMS: 10})
+	nw := 0
+	for _, e := range dry.Events {
+		if e.Kind == "write" {
+			nw++
+		}
+	}
+	if nw == 0 || dry.Err != "" {
+		res.Verdict, res.Note = "inconclusive", "dry run produced no writes: "+dry.Err
+		return res
+	}
+	failAt := 1 + r.Intn(nw)
+	journal := filepath.Join(c.Scratch, fmt.Sprintf("c08fault-%d.journal", idx))
+	self, _ := os.Executable()
+	cmd := exec.Command(self, "-test.run", "^$")
+	cmd.Env = append(os.Environ(), "VERIF_CHILD=c08fault", fmt.Sprintf("VERIF_C08_SEED=%d", seed), fmt.Sprintf("VERIF_C08_FAILAT=%d", failAt), "VERIF_C08_JOURNAL="+journal,
+		"GORACE=halt_on_error=0 exitcode=0 log_path="+journal+".race")
+	errf, _ := os.Create(journal + ".err")
+	cmd.Stdout, cmd.Stderr = errf, errf
+	done := make(chan error, 1)
+	if err := cmd.Start(); err != nil {
+		res.Verdict, res.Note = "inconclusive", "cannot start fault child: "+err.Error()
+		return res
+	}
+	go func() { done <- cmd.Wait() }()
+	var werr error
+	select {
+	case werr = <-done:
+	case <-time.After(60 * time.Second):
+		syscall.Kill(cmd.Process.Pid, syscall.SIGKILL)
+		<-done
+		res.Verdict, res.Note = "inconclusive", "fault child did not end within 60 s"
+		errf.Close()
+		return res
+	}
+	errf.Close()
+	b, _ := os.ReadFile(journal)
+	lines := strings.Split(string(b), "\n")
+	failedAt, beginsAfter, waitRet := -1, 0, ""
+	firstAfter := ""
+	for _, ln := range lines {
+		f := strings.Fields(ln)
+		if len(f) >= 3 && f[0] == "EV" {
+			if strings.Contains(ln, "injected write failure") && failedAt < 0 {
+				failedAt = len(f)
+				fmt.Sscan(f[1], &failedAt)
+				continue
+			}
+			if failedAt >= 0 && f[2] == "begin" {
+				beginsAfter++
+				if firstAfter == "" {
+					firstAfter = ln
+				}
+			}
+		}
+		if len(f) >= 1 && (f[0] == "WAITRET" || f[0] == "WAITHANG") {
+			waitRet = ln
+		}
+	}
+	res.Counters["fault_cases"]++
+	res.Events = len(lines)
+	if failedAt < 0 {
+		res.Verdict, res.Note = "inconclusive", fmt.Sprintf("the injected failure at write %d of %d was never reached (%s)", failAt, nw, waitRet)
+		return res
+	}
+	res.Counters["fault_reached"]++
+	if werr == nil {
+		res.Counters["fault_child_survived"]++
+	}
+	if beginsAfter > 0 {
+		res.Viols = append(res.Viols, ev.V("C08", "acted-after-failed-write", "", "storage write %d failed, yet %d plugin invocations began afterwards (strictly sequential plan); first: %s; end of process: %v %s", failAt, beginsAfter, firstAfter, werr, waitRet))
+	} else if waitRet != "" && strings.HasPrefix(waitRet, "WAITRET") {
+		res.Viols = append(res.Viols, ev.V("C08", "finished-despite-failed-write", "", "storage write %d failed, yet the plan ran to the end and Wait returned (%s): the waiter was released although a state change was not durable", failAt, waitRet))
+	}
+	res.Nontriv = hashStr(fmt.Sprint("fault", ps, failAt))
+	res.ISig = res.Nontriv
+	if len(res.Viols) > 0 {
+		res.Witness = map[string]any{"plan": ps, "fail_at": failAt, "journal": lines}
+	}
+	if idx%40 == 9 {
+		res.Sample = map[string]any{"mode": "failing storage write", "plan": ps, "fail_at_write": failAt, "writes": nw, "journal_tail": lines[max(0, len(lines)-6):]}
+	}
+	return res
+}
+
+// c08Dispatch: every tenth case is a fault-mode case (failing storage write in a grandchild process).
+func c08Dispatch(normal func(c *Ctx, idx int) CaseResult) func(c *Ctx, idx int) CaseResult {
+	return func(c *Ctx, idx int) CaseResult {
+		if idx%10 == 9 {
+			return c08Fault(c, idx)
+		}
+		return normal(c, idx)
+	}
 }
